@@ -5,8 +5,8 @@ from . import base
 ID = 'C04'
 LEVEL = 'exploration'
 PLAN = {
-    'quick': [('synth', 26000), ('shipped', 800)],
-    'thorough': [('synth', 1000000), ('shipped', 36000)],
+    'quick': [('synth', 22000), ('synth_cli', 6000), ('shipped', 800)],
+    'thorough': [('synth', 900000), ('synth_cli', 200000), ('shipped', 36000)],
 }
 DEADLINE = {'quick': 200, 'thorough': 3300}
 PROBES = ['input-only-load-then-full', 'optional-line-demanded', 'form-loaded-on-demand', 'foreign-input-read-without-participation']
@@ -23,7 +23,11 @@ RULE = ('successful solves of generated form programs (data-dependent branches d
 
 
 def evaluate(case, engine, acc=None):
-    run = simrun.execute(case)
+    if engine == 'synth_cli':
+        run = simrun.execute_cli(case, {'prompt': case['prompt'], 'writeback': False, 'solution': False,
+                                        'interrupt': [case['refuse_at'], 'ctrlc'] if case.get('refuse_at') is not None else None})
+    else:
+        run = simrun.execute(case)
     r1 = simrun.model_for(case, run)
     fs = [f for f in simrun.judge(case, run, r1) if f['oracle'] in ORACLES]
     for f in fs:
@@ -61,10 +65,15 @@ def run_one(engine, seed, acc, tier):
         return shipped_props.run_one(ID, seed, acc, tier)
     rng = core.Rng(core.h64('c04', seed))
     case = gen.gen_case(seed, clean=rng.chance(0.8))
-    if rng.chance(0.8):
+    if rng.chance(0.8 if engine != 'synth_cli' else 0.5):
         # success needs every input: supply or prompt for all of them
         case['prompt'] = True
         case['refuse_at'] = None
+    if engine == 'synth_cli' and len(case['world']['forms']) > 1 and len(case['requested']) == 1 and rng.chance(0.5):
+        # several --form arguments
+        for fs in case['world']['forms'][1:]:
+            if rng.chance(0.6):
+                case['requested'].append(f"{fs['name']}:{rng.pick(['0', '1', '2'])}" if fs['multi'] else fs['name'])
     for f in evaluate(case, engine, acc):
         acc.violation(base.violation(ID, f, case, seed, engine))
 
